@@ -162,6 +162,17 @@ func (eval Evaluator) PartialTracesSum(ctIn *Ciphertext, offset, n int, opOut *C
 	levelQ := ctIn.Level()
 	levelP := params.PCount() - 1
 
+	if levelP < 0 && n > 1 {
+		// The hoisted (mod QP) rotations below need an auxiliary modulus; without one the same sum is
+		// evaluated with plain automorphisms: InnerFunction walks the same tree.
+		return eval.InnerFunction(ctIn, offset, n, func(a, b, c *Ciphertext) (err error) {
+			r := params.RingQ().AtLevel(c.Level())
+			r.Add(a.Value[0], b.Value[0], c.Value[0])
+			r.Add(a.Value[1], b.Value[1], c.Value[1])
+			return
+		}, opOut)
+	}
+
 	ringQP := params.RingQP().AtLevel(ctIn.Level(), levelP)
 
 	ringQ := ringQP.RingQ
